@@ -349,6 +349,30 @@ impl<B: Backend> KeyPair<B> {
             }
         }
     }
+    /// seal / open with any payload and footer types (typed footers, JSON payloads, failing encoders)
+    pub fn seal_t<M: Payload, F: paseto_core::encodings::Footer>(&self, msg: M, footer: F, aad: &[u8]) -> Result<String, PasetoError> {
+        match self {
+            KeyPair::Local(k) => UnencryptedToken::<B, M>::new(msg).with_footer(footer).encrypt_with_aad(k, aad).map(|t| t.to_string()),
+            KeyPair::Public(sk, _) => UnsignedToken::<B, M>::new(msg).with_footer(footer).sign_with_aad(sk, aad).map(|t| t.to_string()),
+        }
+    }
+    /// returns (claims, footer, Display of the parsed token before unsealing)
+    pub fn open_t<M: Payload, F: paseto_core::encodings::Footer>(&self, token: &str, aad: &[u8]) -> Result<(M, F, String), PasetoError> {
+        match self {
+            KeyPair::Local(k) => {
+                let t: EncryptedToken<B, M, F> = token.parse()?;
+                let shown = t.to_string();
+                let u = t.decrypt_with_aad(k, aad, &NoValidation::dangerous_no_validation())?;
+                Ok((u.claims, u.footer, shown))
+            }
+            KeyPair::Public(_, pk) => {
+                let t: SignedToken<B, M, F> = token.parse()?;
+                let shown = t.to_string();
+                let u = t.verify_with_aad(pk, aad, &NoValidation::dangerous_no_validation())?;
+                Ok((u.claims, u.footer, shown))
+            }
+        }
+    }
     /// raw bytes of the sealing key and of the unsealing key
     pub fn raw(&self) -> (Vec<u8>, Vec<u8>) {
         match self {
